@@ -435,10 +435,39 @@ Theorem C17_mount_delegation_derived : forall o p st i rel, mount_derived o = So
 Proof. exact mount_delegation_derived. Qed.
 Print Assumptions C17_mount_delegation_derived.
 
-Theorem C17_mount_default_derived : forall o p st, mount_derived o = Some p -> mount_delegate (mounts_of st) p = Ok None ->
+Theorem C17_mount_default_derived : forall o p st, mount_derived o = Some p -> mount_derived_noscan o = true ->
+  mount_delegate (mounts_of st) p = Ok None ->
   mount_run o st = on_default (mem_run o) st.
 Proof. exact mount_default_derived. Qed.
 Print Assumptions C17_mount_default_derived.
+
+Theorem C17_mount_scandir_member : forall p st i rel, mount_delegate (mounts_of st) p = Ok (Some (i, rel)) ->
+  mount_run (OScandir p) st = on_mount i (mem_run (OScandir rel)) st.
+Proof. exact mount_scandir_member. Qed.
+Print Assumptions C17_mount_scandir_member.
+
+Theorem C17_mount_scandir_default : forall p st d, mount_delegate (mounts_of st) p = Ok None -> mount_key p = Ok d ->
+  mount_run (OScandir p) st = (st, omap VInfos (default_listing st p d)).
+Proof. exact mount_scandir_default. Qed.
+Print Assumptions C17_mount_scandir_default.
+
+Theorem C17_mount_scandir_bad_path : forall p st e, mount_delegate (mounts_of st) p = Err e -> mount_run (OScandir p) st = (st, Err e).
+Proof. exact mount_scandir_bad_path. Qed.
+Print Assumptions C17_mount_scandir_bad_path.
+
+Theorem C17_mount_isempty_default : forall p st d, mount_delegate (mounts_of st) p = Ok None -> mount_key p = Ok d ->
+  mount_run (OIsempty p) st = (st, omap (fun l => VBool (match l with [] => true | _ => false end)) (default_listing st p d)).
+Proof. exact mount_isempty_default. Qed.
+Print Assumptions C17_mount_isempty_default.
+
+Theorem C17_mount_scandir_plain_entry : forall st d i, (i_isdir i && is_mount_key st (forcedir (d ++ i_name i))) = false -> point_info st d i = Ok i.
+Proof. exact mount_scandir_plain_entry. Qed.
+Print Assumptions C17_mount_scandir_plain_entry.
+
+Theorem C17_mount_scandir_point_entry : forall st d i, (i_isdir i && is_mount_key st (forcedir (d ++ i_name i))) = true ->
+  omap VInfo (point_info st d i) = snd (mount_run (OGetinfo (d ++ i_name i)) st).
+Proof. exact mount_scandir_point_entry. Qed.
+Print Assumptions C17_mount_scandir_point_entry.
 
 Theorem C17_mount_copy_within : forall s d ov pt st i rs rd, mount_keys_ok st = true -> i < length (t_mounts st) ->
   mount_delegate (mounts_of st) s = Ok (Some (i, rs)) -> mount_delegate (mounts_of st) d = Ok (Some (i, rd)) ->
